@@ -985,6 +985,8 @@ def _frame(s):
             # chunk-size = 1*HEXDIG, optional blanks, optional ;extension, CRLF (RFC 7230 4.1); sizes that do not fit
             # 31 bits, signs, prefixes or anything else: the framing is unknown, nothing may be dispatched
             m = re.fullmatch(rb"([0-9a-fA-F]{1,8})[ \t]*(?:;[^\n]*)?\r", s[pos:j])
+            if not m and re.fullmatch(rb"[0-9a-fA-F]{1,8}[ \t]*\r[^\n]+", s[pos:j]) and b"\x00" not in s[pos:j]:
+                return None          # a size line with bytes between its CR and the LF: line-ending leniency, no opinion
             if not m or int(m.group(1), 16) > 0x7fffffff or b"\x00" in s[pos:j]:
                 return "incomplete"
             n = int(m.group(1), 16)
